@@ -519,6 +519,31 @@ fn data_holders(cg: &syn::File, all: &ImplFns, notes: &mut Vec<String>) -> Resul
     Ok(out)
 }
 
+/// a type built only from std containers and scalars: dropping it runs no user or script code
+fn is_plain_data(ty: &str) -> bool {
+    const OK: &[&str] = &[
+        "Vec", "VecDeque", "Box", "HashSet", "HashMap", "BTreeSet", "BTreeMap", "Option", "String", "str", "Arc", "u8", "u16",
+        "u32", "u64", "u128", "usize", "i8", "i16", "i32", "i64", "i128", "isize", "bool", "char", "f32", "f64", "ResolvedName",
+    ];
+    let words: Vec<&str> = ty.split(|c: char| !(c.is_alphanumeric() || c == '_')).filter(|w| !w.is_empty()).collect();
+    !words.is_empty()
+        && words.iter().all(|w| OK.contains(w))
+        && !ty.contains('*')
+        && !ty.contains("dyn")
+        && !ty.contains('&')
+        && ty.chars().all(|c| c.is_alphanumeric() || "_<>,[]()".contains(c))
+}
+
+fn param_names(sig: &syn::Signature) -> Vec<String> {
+    sig.inputs
+        .iter()
+        .filter_map(|a| match a {
+            syn::FnArg::Typed(t) => Some(norm(&t.pat).trim_start_matches("mut").to_string()),
+            _ => None,
+        })
+        .collect()
+}
+
 fn lifetime(repo: &Path) -> Result<String, String> {
     let cg = find::parse(repo, "src/codegen/mod.rs")?;
     let pl = find::parse(repo, "src/pipeline.rs")?;
@@ -534,13 +559,14 @@ fn lifetime(repo: &Path) -> Result<String, String> {
             "HashMap<ResolvedName,RotoConstant>" => "rotoConstants",
             "Vec<Arc<Box<dynAny>>>" => "registeredFns",
             "JITModuleWrapper" => "jit",
+            other if is_plain_data(other) => "plain",
             other => {
                 return Err(format!(
                     "ModuleData field `{name}` has an unrecognised type `{other}`: its drop behaviour is not modelled"
                 ));
             }
         };
-        if lean_fields.contains(&f) {
+        if f != "plain" && lean_fields.contains(&f) {
             return Err(format!("ModuleData has two fields of kind {f}"));
         }
         lean_fields.push(f);
@@ -628,24 +654,62 @@ fn lifetime(repo: &Path) -> Result<String, String> {
         }
     };
     let codegen = body("", "codegen")?;
-    let finalize = body("ModuleBuilder", "finalize")?;
-    let md_new = body("ModuleData", "new")?;
-    let smd_new = body("SharedModuleData", "new")?;
     let declare_constant = body("ModuleBuilder", "declare_constant")?;
-    // construction plumbing: builder fields reach the ModuleData fields unchanged
-    if !smd_new.contains("Self(Arc::new(ModuleData::new(cranelift_jit,constants,roto_constants,registered_fns,)))") {
-        return Err("SharedModuleData::new does not build `Arc::new(ModuleData::new(cranelift_jit, constants, roto_constants, registered_fns))`".into());
+    // construction plumbing: which builder field reaches which ModuleData field
+    //   finalize: SharedModuleData::new(self.a, self.b, …)  →  Self(Arc::new(ModuleData::new(p1, p2, …)))
+    //   →  Self { field: p, …, jit_field: JITModuleWrapper(ManuallyDrop::new(p)) }
+    let smd = find::func(&cg, "new", Some("SharedModuleData"))?;
+    let mdn = find::func(&cg, "new", Some("ModuleData"))?;
+    let smd_params = param_names(&smd.sig);
+    let md_params = param_names(&mdn.sig);
+    let want = format!("Self(Arc::new(ModuleData::new({},)))", smd_params.join(","));
+    let want2 = format!("Self(Arc::new(ModuleData::new({})))", smd_params.join(","));
+    let smd_tail = norm(find::tail_expr(&smd.block)?);
+    if (smd_tail != want && smd_tail != want2) || md_params.len() != smd_params.len() {
+        return Err("SharedModuleData::new does not build `Arc::new(ModuleData::new(<its parameters, in order>))`".into());
     }
-    if !finalize.contains("SharedModuleData::new(self.inner,self.runtime_constants,self.roto_constants,self.registered_fns,)") {
-        return Err("ModuleBuilder::finalize does not pass (inner, runtime_constants, roto_constants, registered_fns) to SharedModuleData::new".into());
+    let mut md_lit = StructLit("Self", vec![]);
+    md_lit.visit_block(&mdn.block);
+    if md_lit.1.len() != 1 {
+        return Err(format!("ModuleData::new: {} `Self {{…}}` literals", md_lit.1.len()));
     }
-    let moved = |kind: &str, param: &str| -> bool {
+    let mut field_param: Vec<(String, usize, bool)> = vec![]; // ModuleData field ← parameter index, wrapped in JITModuleWrapper
+    for fv in &md_lit.1[0].fields {
+        let (m, e) = (norm(&fv.member), norm(&fv.expr));
+        if let Some(i) = md_params.iter().position(|p| *p == e) {
+            field_param.push((m, i, false));
+        } else if let Some(i) = md_params.iter().position(|p| e == format!("JITModuleWrapper(ManuallyDrop::new({p}))")) {
+            field_param.push((m, i, true));
+        } else {
+            return Err(format!("ModuleData::new initialises `{m}` with `{e}`: not a parameter moved in"));
+        }
+    }
+    let finalize_fn = find::func(&cg, "finalize", Some("ModuleBuilder"))?;
+    let mut fin_lit = StructLit("Module", vec![]);
+    fin_lit.visit_block(&finalize_fn.block);
+    let mut fin_args: Vec<String> = vec![];
+    if fin_lit.1.len() == 1 {
+        for fv in &fin_lit.1[0].fields {
+            if let syn::Expr::Call(c) = &fv.expr {
+                if norm(&c.func) == "SharedModuleData::new" && norm(&fv.member) == inner {
+                    fin_args = c.args.iter().map(|a| norm(a)).collect();
+                }
+            }
+        }
+    }
+    if fin_args.len() != smd_params.len() || fin_args.iter().any(|a| !a.starts_with("self.")) {
+        return Err(format!("ModuleBuilder::finalize does not pass {} builder fields to SharedModuleData::new: {fin_args:?}", smd_params.len()));
+    }
+    // ModuleData field of that kind is filled from that builder field
+    let moved = |kind: &str, builder_field: &str| -> bool {
         match field_named(kind) {
-            Some(f) => md_new.contains(&format!("{f}:{param},")),
+            Some(f) => field_param
+                .iter()
+                .any(|(m, i, wrapped)| *m == f && fin_args[*i] == format!("self.{builder_field}") && *wrapped == (kind == "jit")),
             None => false,
         }
     };
-    let consts_cloned = moved("constants", "constants")
+    let consts_cloned = moved("constants", "runtime_constants")
         && declare_constant.contains("self.runtime_constants.insert(constant.name,constant.value.clone());")
         && codegen.contains("forconstantinruntime.constants().values(){module.declare_constant(constant);}");
     if !consts_cloned {
@@ -662,8 +726,14 @@ fn lifetime(repo: &Path) -> Result<String, String> {
     if !moved("rotoConstants", "roto_constants") || !codegen.contains("module.roto_constants.insert(*name,constant);") {
         return Err("script constants no longer reach ModuleData's RotoConstant map".into());
     }
-    if !md_new.contains("JITModuleWrapper(ManuallyDrop::new(cranelift_jit))") {
-        return Err("ModuleData::new does not wrap the JIT module in JITModuleWrapper(ManuallyDrop::new(..))".into());
+    if !moved("jit", "inner") {
+        return Err("ModuleData::new does not wrap the builder's JIT module in JITModuleWrapper(ManuallyDrop::new(..))".into());
+    }
+    for ((name, _), kind) in fields.iter().zip(&lean_fields) {
+        if *kind == "plain" {
+            let src = field_param.iter().find(|(m, _, _)| m == name).map(|(_, i, _)| fin_args[*i].clone());
+            notes.push(format!("ModuleData.{name} (plain data) is filled from {}", src.unwrap_or("?".into())));
+        }
     }
 
     // ---- 4. who frees the code
